@@ -43,10 +43,29 @@ CONTRACTS = {
     "RecordFormat::value_offset": [("val", 2, "le", (1 << 63) - 1)],
     "format::retirement_marker_token": [("len", 2, "ge", 19)],
     "recovery::record_crc_head": [("len", 2, "ge", 4)],
-    "DiskIO::read_sectors_sync": [("val", 3, "le", 1 << 19), ("val", 2, "le", 1 << 51)],
+    "DiskIO::read_sectors_sync": [("val", 3, "le", 1 << 19), ("val", 2, "le", (1 << 52) - 1)],
+    "RecoveryScanner::new": [("val", 2, "le", 1 << 52)],
+    "recovery::RecoveryScanner::<'a>::new": [("val", 2, "le", 1 << 52)],
 }
 # postconditions taken on trust (listed in the evidence): Ok(v) of read_sectors_sync has v.len() == count * FEOX_BLOCK_SIZE
 ENSURES = {"DiskIO::read_sectors_sync": [("ok_len_mul", 3, 4096)]}
+# postconditions: proved at every Ok return of the callee (fields as they are at exit), assumed by callers on the Ok edge.
+# RecoveryScanner window: after fill_at(s) = Ok the block of sector s lies inside the buffer.
+B4K = 4096
+POSTS = {
+    "RecoveryScanner::fill_at": [
+        [(1, ("arg", 2)), (-1, ("field", 1, "buffer_start")), 0],                                                  # buffer_start <= sector
+        [(B4K, ("field", 1, "buffer_start")), (1, ("lenfield", 1, "buffer")), (-B4K, ("arg", 2)), -B4K],          # (sector + 1 - buffer_start) * 4096 <= buffer.len()
+    ],
+}
+# type invariant of the private RecoveryScanner (assumed on entry of its methods, proved at every constructor expression and
+# at every exit of a method that may have changed the fields; only its own methods write the fields: checked)
+INVARIANTS = {
+    "RecoveryScanner": [
+        [(B4K, ("field", 1, "total_sectors")), (-B4K, ("field", 1, "buffer_start")), (-1, ("lenfield", 1, "buffer")), 0],   # window ends inside the device
+        [(-1, ("field", 1, "total_sectors")), 1 << 52],                                                                      # total_sectors <= 2^52
+    ],
+}
 INLINE = ["allocation_journal::journal_image_size", "RecordFormat::record_header_size", "RecordFormat::total_size", "RecordFormat::value_offset"]
 
 RESIDUAL_FILE = os.path.join(os.path.dirname(os.path.dirname(os.path.abspath(__file__))), "spec", "c17_residual.json")
@@ -174,7 +193,8 @@ def progress_obligations(prog, eng, b):
 
 
 def run(prog):
-    eng = B.Engine(prog, contracts=CONTRACTS, inline=INLINE, ensures=ENSURES)
+    eng = B.Engine(prog, contracts=CONTRACTS, inline=INLINE, ensures=ENSURES, posts=POSTS)
+    eng.invariants = INVARIANTS
     out = []
     for p, b in sorted(prog.bodies.items()):
         if b.is_test or not in_scope(b):
@@ -234,8 +254,31 @@ def check(ctx, inst="C17.bounds"):
         used[k] = used.get(k, 0) + 1
         if used[k] <= allowed.get(k, 0):
             continue
-        ctx.fail(inst, "BOUNDS", b.path, "%s not discharged: %s: %s" % ("obligation" if ob.kind in ("Progress", "DeviceRange", "Contract", "AllocSize") else "panic site", ob.kind, ob.desc), ob.where,
+        ctx.fail(inst, "BOUNDS", b.path, "%s not discharged: %s: %s" % ("obligation" if ob.kind in ("Progress", "DeviceRange", "Contract", "AllocSize", "Post", "Invariant") else "panic site", ob.kind, ob.desc), ob.where,
                  {"reason": why, "rule": "every bounds / overflow / unwrap / length obligation in a device-bytes parser must follow from the checks that dominate it"})
+    # the invariant argument needs the fields to be written only by the type's own methods / constructor expressions
+    for ty, rows in INVARIANTS.items():
+        fields = {spec[2] for row in rows for (c_, spec) in row[:-1]}
+        n_w = 0
+        for bb in prog.bodies.values():
+            if bb.is_test:
+                continue
+            for n in bb.nodes:
+                pls = []
+                if n.kind == "assign":
+                    pls.append(n.ev["dst"])
+                    if n.ev.get("rv") in ("ref", "rawptr") and (n.ev.get("mut") or n.ev.get("rv") == "rawptr"):
+                        pls.append(n.ev["pl"])
+                elif n.kind == "call" and n.ev.get("dest"):
+                    pls.append(n.ev["dest"])
+                for pl in pls:
+                    for pr in pl["p"]:
+                        if isinstance(pr, dict) and "f" in pr and (pr.get("adt") or "").split("<")[0].endswith("::" + ty) and pr.get("n") in fields:
+                            n_w += 1
+                            owner = bb.root if bb.is_closure else bb.path
+                            ctx.check(("::" + ty + "::") in owner.replace("<'a>", "").replace("::::", "::") or (ty + "::<'a>::") in owner, inst, "FIELDW", owner,
+                                      "fields of %s are written (or mutably borrowed) only by its own methods" % ty, bb.where(n.id))
+        ctx.check(n_w >= 2, inst, "anchor", "-", "writes to %s fields found (>= 2, found %d)" % (ty, n_w), None)
     floor = residual.get("discharged_floor", 0)
     ctx.check(n_ok >= floor, inst, "anchor", "-", "discharged panic sites in the parser scope (>= %d, found %d)" % (floor, n_ok), None)
     stale = [k for k in allowed if used.get(k, 0) < allowed[k]]
